@@ -14,6 +14,11 @@ o, err = core.build_oracle()
 print("oracle:", o, err[-500:] if not o else "")
 g, err = core.build_garble()
 print("garble:", g, err[-500:] if not g else "")
+try:
+    from gvlib import c10
+    c10.regenerate()          # Gen/RuntimeGraph.lean from the stripped runtime
+except Exception as e:
+    print("runtime graph not regenerated:", e)
 ok, failing, log = core.lake_build([])
 print(log[-2000:])
 if not (ok and o and g):
@@ -23,7 +28,7 @@ try:
     from gvlib import e2e
     E = e2e.E2E("setup")
     root = E.write_module("hello", {"go.mod": "module gv.test/hello\n\ngo 1.26\n", "main.go": "package main\n\nimport (\n\t\"fmt\"\n\t\"os\"\n\t\"strconv\"\n\t\"strings\"\n)\n\nfunc main() { fmt.Println(strings.Repeat(strconv.Itoa(len(os.Args)), 2)) }\n"})
-    for fl in ([], ["-literals", "-seed=o9WDTZ4CN4w"]):
+    for fl in ([], ["-literals", "-seed=o9WDTZ4CN4w"], ["-tiny"]):
         t = time.time()
         r = E.run_garble(fl, ["build", "-o", "out", "."], root)
         print("warm", fl, r.returncode, round(time.time() - t, 1), r.stderr[-200:])
